@@ -98,6 +98,7 @@ fn seq_main<G: ParRig>(args: &Args) {
     let check_every = args.u64("check-every", 1);
     let mut stats = seq::Stats::default();
     let mut all_viols: Vec<seq::Viol> = Vec::new();
+    let mut per_sig: BTreeMap<(String, String), u32> = BTreeMap::new();
     let mut replay = None;
     let mut samples = Vec::new();
     if trace {
@@ -129,7 +130,15 @@ fn seq_main<G: ParRig>(args: &Args) {
                 }
                 replay = Some(seq::Replay { rig: G::NAME.into(), profile: pname.clone(), seed: hseed, ops, violations: viols.clone() });
             }
-            all_viols.extend(viols);
+            // keep at most 5 reports per (property, signature): a recurring known finding must not
+            // cut the shard short
+            for v in viols {
+                let n = per_sig.entry((v.prop.clone(), v.sig.clone())).or_insert(0u32);
+                *n += 1;
+                if *n <= 5 {
+                    all_viols.push(v);
+                }
+            }
             if all_viols.len() > 200 {
                 break;
             }
